@@ -54,6 +54,11 @@ func (v k4val) String() string {
 		return s
 	case 4:
 		return fmt.Sprintf("%q", v.s)
+	case 7:
+		if f, ok := v.v.(*ssa.Function); ok {
+			return extName(f)
+		}
+		return "func"
 	case 5:
 		var p []string
 		for _, t := range v.tup {
@@ -68,46 +73,53 @@ func (v k4val) String() string {
 type Model struct {
 	Num  map[string]float64
 	Bool map[string]bool
+	Str  map[string]string
 	// Unknown keys that were requested (so the rule can report "undecided").
 	Missing map[string]bool
 }
 
 type k4interp struct {
-	p      *Program
-	m      *Model
-	depth  int
-	steps  int
-	inline func(f *ssa.Function) bool
+	p       *Program
+	m       *Model
+	depth   int
+	steps   int
+	frameID int
+	inline  func(f *ssa.Function) bool
+	mem     map[string]k4val // symbolic memory: address key -> value (overrides the model)
+	// stores performed on non-local memory, in order (for rules that inspect effects)
+	effects []string
 }
 
 type k4frame struct {
-	fn     *ssa.Function
-	args   []k4val
-	prev   *ssa.BasicBlock
-	cur    *ssa.BasicBlock
-	vals   map[ssa.Value]k4val
-	cells  map[ssa.Value]k4val // local alloc contents (whole-value stores)
-	fields map[string]k4val    // alloc field stores: key = alloc name + "." + path
+	id   int
+	fn   *ssa.Function
+	args []k4val
+	prev *ssa.BasicBlock
+	cur  *ssa.BasicBlock
+	vals map[ssa.Value]k4val
+	fvs  []k4val // free variable cells (address keys)
 }
 
 var errK4Undecided = fmt.Errorf("undecided")
 
+func (it *k4interp) newFrame(f *ssa.Function, args []k4val, fvs []k4val) *k4frame {
+	it.frameID++
+	return &k4frame{id: it.frameID, fn: f, args: args, vals: map[ssa.Value]k4val{}, fvs: fvs, cur: f.Blocks[0]}
+}
+
 // call interprets f with the given arguments; returns its results.
-func (it *k4interp) call(f *ssa.Function, args []k4val) ([]k4val, error) {
+func (it *k4interp) call(f *ssa.Function, args []k4val, fvs []k4val) ([]k4val, error) {
 	if it.depth > 6 {
 		return nil, fmt.Errorf("inlining too deep at %s", FuncName(f))
 	}
 	it.depth++
 	defer func() { it.depth-- }()
-	fr := &k4frame{fn: f, args: args, vals: map[ssa.Value]k4val{}, cells: map[ssa.Value]k4val{}, fields: map[string]k4val{}}
-	fr.cur = f.Blocks[0]
+	fr := it.newFrame(f, args, fvs)
 	for {
-		it.steps++
-		if it.steps > 20000 {
-			return nil, fmt.Errorf("step bound exceeded (loop?) in %s", FuncName(f))
-		}
 		b := fr.cur
 		// phis first, all evaluated against prev
+		var phiVals []k4val
+		var phis []*ssa.Phi
 		for _, in := range b.Instrs {
 			phi, ok := in.(*ssa.Phi)
 			if !ok {
@@ -126,9 +138,23 @@ func (it *k4interp) call(f *ssa.Function, args []k4val) ([]k4val, error) {
 			if err != nil {
 				return nil, err
 			}
-			fr.vals[phi] = v
+			phis = append(phis, phi)
+			phiVals = append(phiVals, v)
+		}
+		// a new iteration invalidates the values computed in this block before
+		for _, in := range b.Instrs {
+			if v, ok := in.(ssa.Value); ok {
+				delete(fr.vals, v)
+			}
+		}
+		for i, phi := range phis {
+			fr.vals[phi] = phiVals[i]
 		}
 		for _, in := range b.Instrs {
+			it.steps++
+			if it.steps > 200000 {
+				return nil, fmt.Errorf("step bound exceeded (unbounded loop?) in %s", FuncName(f))
+			}
 			switch x := in.(type) {
 			case *ssa.Phi, *ssa.DebugRef:
 				continue
@@ -137,18 +163,11 @@ func (it *k4interp) call(f *ssa.Function, args []k4val) ([]k4val, error) {
 				if err != nil {
 					return nil, err
 				}
-				switch a := x.Addr.(type) {
-				case *ssa.Alloc:
-					fr.cells[a] = v
-				case *ssa.FieldAddr, *ssa.IndexAddr:
-					if k, ok := it.localKey(a); ok {
-						fr.fields[k] = v
-					} else {
-						return nil, fmt.Errorf("store to non-local memory in %s", FuncName(f))
-					}
-				default:
-					return nil, fmt.Errorf("store to non-local memory in %s", FuncName(f))
+				k, err := it.addrKey(fr, x.Addr)
+				if err != nil {
+					return nil, err
 				}
+				it.store(k, v)
 			case *ssa.If:
 				c, err := it.eval(fr, x.Cond)
 				if err != nil {
@@ -171,173 +190,229 @@ func (it *k4interp) call(f *ssa.Function, args []k4val) ([]k4val, error) {
 				for _, r := range x.Results {
 					v, err := it.eval(fr, r)
 					if err != nil {
-						// non-evaluable results are returned opaque
-						v = k4val{kind: 3, v: r}
+						// a result that is not used for control flow stays symbolic
+						if k, ok := it.keyOf(fr, r); ok {
+							v = k4val{kind: 3, v: r, s: k}
+							delete(it.m.Missing, "bool "+k)
+							delete(it.m.Missing, "num "+k)
+						} else if err == errK4Undecided {
+							return nil, err
+						} else {
+							v = k4val{kind: 3, v: r, s: "?" + r.Name()}
+						}
 					}
 					out = append(out, v)
 				}
 				return out, nil
 			case *ssa.Panic:
 				return []k4val{{kind: 4, s: "panic"}}, nil
+			case *ssa.Call:
+				// calls with effects must be evaluated in order; pure ones are memoised
+				if _, err := it.eval(fr, x); err != nil && err == errK4Undecided {
+					return nil, err
+				}
 			case ssa.Value:
 				// evaluated lazily
-			default:
-				// other effects (calls are values) ignored
 			}
 		}
 		if fr.cur == b {
-			return nil, fmt.Errorf("block without terminator")
+			if len(b.Succs) == 0 {
+				return nil, fmt.Errorf("block without successor")
+			}
 		}
 	}
 }
 
-// localKey: address rooted in a local Alloc -> stable key.
-func (it *k4interp) localKey(addr ssa.Value) (string, bool) {
-	var parts []string
-	for i := 0; i < 10; i++ {
-		switch a := addr.(type) {
-		case *ssa.Alloc:
-			return fmt.Sprintf("%p", a) + strings.Join(parts, ""), true
-		case *ssa.FieldAddr:
-			parts = append([]string{"." + fieldName(a.X.Type(), a.Field)}, parts...)
-			addr = a.X
-		case *ssa.IndexAddr:
-			k, ok := constInt(a.Index)
-			if !ok {
+func (it *k4interp) store(key string, v k4val) {
+	for k := range it.mem {
+		if strings.HasPrefix(k, key+".") || strings.HasPrefix(k, key+"[") {
+			delete(it.mem, k)
+		}
+	}
+	it.mem[key] = v
+	if v.kind == 3 && strings.HasPrefix(v.s, "S") {
+		// storing a snapshot: copy its entries so later reads through key see them
+		for mk, mv := range it.mem {
+			if strings.HasPrefix(mk, v.s+".") || strings.HasPrefix(mk, v.s+"[") {
+				it.mem[key+mk[len(v.s):]] = mv
+			}
+		}
+		if base, ok := it.mem[v.s]; ok {
+			it.mem[key] = base
+		} else {
+			delete(it.mem, key)
+		}
+	}
+	if !strings.HasPrefix(key, "L") || !strings.Contains(key, ":") {
+		it.effects = append(it.effects, key+" := "+v.String())
+	}
+}
+
+// addrKey renders an address as a path key with evaluated indices.
+func (it *k4interp) addrKey(fr *k4frame, addr ssa.Value) (string, error) {
+	switch a := addr.(type) {
+	case *ssa.Alloc:
+		return fmt.Sprintf("L%d:%s", fr.id, a.Name()), nil
+	case *ssa.FreeVar:
+		for i, fv := range fr.fn.FreeVars {
+			if fv == a && i < len(fr.fvs) {
+				return fr.fvs[i].s, nil
+			}
+		}
+		return "fv:" + a.Name(), nil
+	case *ssa.Global:
+		return "global:" + a.Name(), nil
+	case *ssa.FieldAddr:
+		b, err := it.addrKey(fr, a.X)
+		if err != nil {
+			return "", err
+		}
+		return b + "." + fieldName(a.X.Type(), a.Field), nil
+	case *ssa.IndexAddr:
+		b, err := it.addrKey(fr, a.X)
+		if err != nil {
+			return "", err
+		}
+		iv, err := it.eval(fr, a.Index)
+		if err != nil {
+			return "", err
+		}
+		switch iv.kind {
+		case 2:
+			return fmt.Sprintf("%s[%d]", b, int64(iv.f)), nil
+		case 3:
+			return fmt.Sprintf("%s[%s]", b, iv.s), nil
+		}
+		return "", fmt.Errorf("unevaluable index")
+	}
+	// a pointer/slice value held in a register
+	v, err := it.eval(fr, addr)
+	if err != nil {
+		return "", err
+	}
+	if v.kind == 3 && v.s != "" {
+		return v.s, nil
+	}
+	return "", fmt.Errorf("address of unknown origin: %s", addr.Name())
+}
+
+// lookup reads the value at a path key: symbolic memory first (following
+// whole-struct aliases), then the model.
+func (it *k4interp) lookup(key string, t types.Type) (k4val, error) {
+	for i := 0; i < 8; i++ {
+		if v, ok := it.mem[key]; ok {
+			return v, nil
+		}
+		// longest stored proper prefix that holds an opaque struct reference
+		best := ""
+		for k, v := range it.mem {
+			if v.kind == 3 && len(k) > len(best) && len(k) < len(key) && strings.HasPrefix(key, k) && (key[len(k)] == '.' || key[len(k)] == '[') {
+				best = k
+			}
+		}
+		if best == "" {
+			break
+		}
+		key = it.mem[best].s + key[len(best):]
+	}
+	if strings.HasPrefix(key, "L") && strings.Contains(key, ":") && !strings.Contains(key, "$") {
+		// never-written local: zero value
+		if isBoolT(t) {
+			return k4val{kind: 1, b: false}, nil
+		}
+		if isNumeric(t) {
+			return k4val{kind: 2, f: 0}, nil
+		}
+	}
+	if isBoolT(t) {
+		if b, ok := it.m.Bool[key]; ok {
+			return k4val{kind: 1, b: b}, nil
+		}
+		it.m.Missing["bool "+key] = true
+		return k4val{}, errK4Undecided
+	}
+	if b, ok := t.Underlying().(*types.Basic); ok && b.Info()&types.IsNumeric != 0 {
+		if f, ok := it.m.Num[key]; ok {
+			return k4val{kind: 2, f: f}, nil
+		}
+		it.m.Missing["num "+key] = true
+		return k4val{}, errK4Undecided
+	}
+	if b, ok := t.Underlying().(*types.Basic); ok && b.Info()&types.IsString != 0 {
+		if sv, ok := it.m.Str[key]; ok {
+			return k4val{kind: 4, s: sv}, nil
+		}
+	}
+	return k4val{kind: 3, s: key}, nil
+}
+
+// keyOf renders a non-address value (call, comparison of opaques, …) as a key.
+func (it *k4interp) keyOf(fr *k4frame, v ssa.Value) (string, bool) {
+	switch x := v.(type) {
+	case *ssa.Call:
+		name := calleeName(x)
+		var parts []string
+		if x.Call.IsInvoke() {
+			a, err := it.eval(fr, x.Call.Value)
+			if err != nil {
 				return "", false
 			}
-			parts = append([]string{fmt.Sprintf("[%d]", k)}, parts...)
-			addr = a.X
-		default:
+			parts = append(parts, a.String())
+		}
+		for _, a := range x.Call.Args {
+			if sl, ok := a.(*ssa.Slice); ok {
+				if lst, ok := it.sliceContents(fr, sl); ok {
+					parts = append(parts, lst)
+					continue
+				}
+			}
+			av, err := it.eval(fr, a)
+			if err != nil {
+				return "", false
+			}
+			parts = append(parts, av.String())
+		}
+		return name + "(" + strings.Join(parts, ",") + ")", true
+	case *ssa.BinOp:
+		a, err := it.eval(fr, x.X)
+		b, err2 := it.eval(fr, x.Y)
+		if err != nil || err2 != nil {
 			return "", false
 		}
+		return "(" + a.String() + x.Op.String() + b.String() + ")", true
+	case *ssa.Extract:
+		t, err := it.eval(fr, x.Tuple)
+		if err != nil {
+			return "", false
+		}
+		return fmt.Sprintf("%s#%d", t.String(), x.Index), true
+	case *ssa.Function:
+		return extName(x), true
+	case *ssa.MakeClosure:
+		return extName(x.Fn.(*ssa.Function)), true
+	case *ssa.Slice:
+		if lst, ok := it.sliceContents(fr, x); ok {
+			return lst, true
+		}
+		a, err := it.eval(fr, x.X)
+		if err != nil {
+			return "", false
+		}
+		return a.String() + "[:]", true
+	case *ssa.TypeAssert:
+		a, err := it.eval(fr, x.X)
+		if err != nil {
+			return "", false
+		}
+		return a.String() + ".(" + typeShort(x.AssertedType) + ")", true
+	case *ssa.MakeInterface:
+		a, err := it.eval(fr, x.X)
+		if err != nil {
+			return "", false
+		}
+		return a.String(), true
 	}
 	return "", false
-}
-
-func (it *k4interp) atomBool(fr *k4frame, v ssa.Value) (k4val, error) {
-	k, ok := it.keyOf(fr, v)
-	if !ok {
-		return k4val{}, fmt.Errorf("no key for boolean atom %s", v.Name())
-	}
-	if b, ok := it.m.Bool[k]; ok {
-		return k4val{kind: 1, b: b}, nil
-	}
-	it.m.Missing["bool "+k] = true
-	return k4val{}, errK4Undecided
-}
-
-func (it *k4interp) atomNum(fr *k4frame, v ssa.Value) (k4val, error) {
-	k, ok := it.keyOf(fr, v)
-	if !ok {
-		return k4val{}, fmt.Errorf("no key for numeric term %s", v.Name())
-	}
-	if f, ok := it.m.Num[k]; ok {
-		return k4val{kind: 2, f: f}, nil
-	}
-	it.m.Missing["num "+k] = true
-	return k4val{}, errK4Undecided
-}
-
-// keyOf renders v in terms of the *outermost* call's parameters: values of
-// inlined frames are substituted by their argument expressions.
-func (it *k4interp) keyOf(fr *k4frame, v ssa.Value) (string, bool) {
-	var rec func(v ssa.Value, d int) (string, bool)
-	rec = func(v ssa.Value, d int) (string, bool) {
-		if d > 12 {
-			return "", false
-		}
-		switch x := v.(type) {
-		case *ssa.Parameter:
-			for i, p := range fr.fn.Params {
-				if p == x {
-					a := fr.args[i]
-					switch a.kind {
-					case 3:
-						return a.s, true
-					case 2:
-						return fmt.Sprint(a.f), true
-					case 1:
-						return fmt.Sprint(a.b), true
-					}
-					return "", false
-				}
-			}
-			return "", false
-		case *ssa.Alloc:
-			if c, ok := fr.cells[x]; ok && c.kind == 3 {
-				return c.s, true
-			}
-			return "", false
-		case *ssa.FieldAddr:
-			s, ok := rec(x.X, d+1)
-			return s + "." + fieldName(x.X.Type(), x.Field), ok
-		case *ssa.Field:
-			s, ok := rec(x.X, d+1)
-			return s + "." + fieldName(x.X.Type(), x.Field), ok
-		case *ssa.IndexAddr:
-			s, ok := rec(x.X, d+1)
-			if k, isC := constInt(x.Index); isC {
-				return fmt.Sprintf("%s[%d]", s, k), ok
-			}
-			return "", false
-		case *ssa.Index:
-			s, ok := rec(x.X, d+1)
-			if k, isC := constInt(x.Index); isC {
-				return fmt.Sprintf("%s[%d]", s, k), ok
-			}
-			return "", false
-		case *ssa.UnOp:
-			if x.Op == token.MUL {
-				return rec(x.X, d+1)
-			}
-		case *ssa.Call:
-			name := calleeName(x)
-			var parts []string
-			for _, a := range x.Call.Args {
-				s, ok := rec(a, d+1)
-				if !ok {
-					// constant argument
-					if c, isC := a.(*ssa.Const); isC && c.Value != nil {
-						s, ok = c.Value.ExactString(), true
-					}
-				}
-				if !ok {
-					return "", false
-				}
-				parts = append(parts, s)
-			}
-			return name + "(" + strings.Join(parts, ",") + ")", true
-		case *ssa.Extract:
-			s, ok := rec(x.Tuple, d+1)
-			return fmt.Sprintf("%s#%d", s, x.Index), ok
-		case *ssa.Const:
-			if x.Value != nil {
-				return x.Value.ExactString(), true
-			}
-			switch x.Type().Underlying().(type) {
-			case *types.Struct, *types.Array:
-				return "zero", true
-			}
-			return "nil", true
-		case *ssa.ChangeType:
-			return rec(x.X, d+1)
-		case *ssa.Convert:
-			return rec(x.X, d+1)
-		case *ssa.FreeVar:
-			return "fv:" + x.Name(), true
-		case *ssa.BinOp:
-			a, ok := rec(x.X, d+1)
-			b, ok2 := rec(x.Y, d+1)
-			return "(" + a + x.Op.String() + b + ")", ok && ok2
-		case *ssa.Function:
-			return extName(x), true
-		case *ssa.MakeClosure:
-			return extName(x.Fn.(*ssa.Function)), true
-		}
-		return "", false
-	}
-	return rec(v, 0)
 }
 
 func (it *k4interp) eval(fr *k4frame, v ssa.Value) (k4val, error) {
@@ -371,6 +446,14 @@ func constVal(c *ssa.Const) (k4val, bool) {
 	return k4val{}, false
 }
 
+func (it *k4interp) opaque(fr *k4frame, v ssa.Value) (k4val, error) {
+	k, ok := it.keyOf(fr, v)
+	if !ok {
+		return k4val{}, fmt.Errorf("cannot name value %s (%T)", v.Name(), v)
+	}
+	return it.lookup(k, v.Type())
+}
+
 func (it *k4interp) eval1(fr *k4frame, v ssa.Value) (k4val, error) {
 	switch x := v.(type) {
 	case *ssa.Const:
@@ -384,12 +467,21 @@ func (it *k4interp) eval1(fr *k4frame, v ssa.Value) (k4val, error) {
 				return fr.args[i], nil
 			}
 		}
+	case *ssa.Alloc, *ssa.FieldAddr, *ssa.IndexAddr, *ssa.FreeVar, *ssa.Global:
+		k, err := it.addrKey(fr, v)
+		if err != nil {
+			return k4val{}, err
+		}
+		return k4val{kind: 3, s: k}, nil
 	case *ssa.UnOp:
 		switch x.Op {
 		case token.NOT:
 			a, err := it.eval(fr, x.X)
 			if err != nil {
 				return a, err
+			}
+			if a.kind != 1 {
+				return k4val{}, fmt.Errorf("! of non-boolean")
 			}
 			return k4val{kind: 1, b: !a.b}, nil
 		case token.SUB:
@@ -399,22 +491,64 @@ func (it *k4interp) eval1(fr *k4frame, v ssa.Value) (k4val, error) {
 			}
 			return k4val{kind: 2, f: -a.f}, nil
 		case token.MUL:
-			// load
-			if a, ok := x.X.(*ssa.Alloc); ok {
-				if c, ok := fr.cells[a]; ok {
-					return c, nil
+			k, err := it.addrKey(fr, x.X)
+			if err != nil {
+				return k4val{}, err
+			}
+			switch x.Type().Underlying().(type) {
+			case *types.Struct, *types.Array:
+				// loading an aggregate copies it: snapshot the stored sub-entries
+				sub := false
+				for mk := range it.mem {
+					if strings.HasPrefix(mk, k+".") || strings.HasPrefix(mk, k+"[") {
+						sub = true
+						break
+					}
+				}
+				if sub {
+					it.frameID++
+					snap := fmt.Sprintf("S%d", it.frameID)
+					for mk, mv := range it.mem {
+						if strings.HasPrefix(mk, k+".") || strings.HasPrefix(mk, k+"[") {
+							it.mem[snap+mk[len(k):]] = mv
+						}
+					}
+					if base, ok := it.mem[k]; ok {
+						it.mem[snap] = base
+					}
+					return k4val{kind: 3, s: snap}, nil
 				}
 			}
-			if k, ok := it.localKey(x.X); ok {
-				if c, ok := fr.fields[k]; ok {
-					return c, nil
-				}
-			}
-			return it.termOf(fr, x)
+			return it.lookup(k, x.Type())
 		}
-	case *ssa.Field, *ssa.Index:
-		// field of a struct value: maybe of a tuple-valued inlined call result
-		return it.termOf(fr, v)
+	case *ssa.Field:
+		a, err := it.eval(fr, x.X)
+		if err != nil {
+			return a, err
+		}
+		if a.kind == 5 {
+			return k4val{}, fmt.Errorf("field of tuple")
+		}
+		if a.kind != 3 {
+			return k4val{}, fmt.Errorf("field of non-struct")
+		}
+		if a.s == "zero" {
+			return zeroOf(x.Type()), nil
+		}
+		return it.lookup(a.s+"."+fieldName(x.X.Type(), x.Field), x.Type())
+	case *ssa.Index:
+		a, err := it.eval(fr, x.X)
+		if err != nil {
+			return a, err
+		}
+		iv, err := it.eval(fr, x.Index)
+		if err != nil {
+			return iv, err
+		}
+		if a.kind == 3 && iv.kind == 2 {
+			return it.lookup(fmt.Sprintf("%s[%d]", a.s, int64(iv.f)), x.Type())
+		}
+		return k4val{}, fmt.Errorf("unevaluable index expression")
 	case *ssa.BinOp:
 		a, err := it.eval(fr, x.X)
 		if err != nil {
@@ -457,10 +591,13 @@ func (it *k4interp) eval1(fr *k4frame, v ssa.Value) (k4val, error) {
 			case token.MUL:
 				return k4val{kind: 2, f: a.f * b.f}, nil
 			case token.QUO:
-				if b.f == 0 {
-					return k4val{kind: 2, f: math.NaN()}, nil
+				if isFloat(x.Type()) {
+					return k4val{kind: 2, f: a.f / b.f}, nil
 				}
-				return k4val{kind: 2, f: a.f / b.f}, nil
+				if b.f == 0 {
+					return k4val{}, fmt.Errorf("integer division by zero")
+				}
+				return k4val{kind: 2, f: float64(int64(a.f) / int64(b.f))}, nil
 			case token.REM:
 				if b.f == 0 {
 					return k4val{}, fmt.Errorf("mod by zero")
@@ -470,6 +607,10 @@ func (it *k4interp) eval1(fr *k4frame, v ssa.Value) (k4val, error) {
 				return k4val{kind: 2, f: float64(int64(a.f) & int64(b.f))}, nil
 			case token.OR:
 				return k4val{kind: 2, f: float64(int64(a.f) | int64(b.f))}, nil
+			case token.SHL:
+				return k4val{kind: 2, f: float64(int64(a.f) << uint(b.f))}, nil
+			case token.SHR:
+				return k4val{kind: 2, f: float64(int64(a.f) >> uint(b.f))}, nil
 			}
 		}
 		if a.kind == 4 && b.kind == 4 {
@@ -478,10 +619,15 @@ func (it *k4interp) eval1(fr *k4frame, v ssa.Value) (k4val, error) {
 				return k4val{kind: 1, b: a.s == b.s}, nil
 			case token.NEQ:
 				return k4val{kind: 1, b: a.s != b.s}, nil
+			case token.ADD:
+				return k4val{kind: 4, s: a.s + b.s}, nil
 			}
 		}
-		// equality of structs of numbers: field-wise over the model
+		// equality of structs of numbers: field-wise
 		if a.kind == 3 && b.kind == 3 && (x.Op == token.EQL || x.Op == token.NEQ) {
+			if a.s == b.s {
+				return k4val{kind: 1, b: x.Op == token.EQL}, nil
+			}
 			if st, ok := x.X.Type().Underlying().(*types.Struct); ok {
 				eq, all := true, true
 				for i := 0; i < st.NumFields(); i++ {
@@ -489,18 +635,15 @@ func (it *k4interp) eval1(fr *k4frame, v ssa.Value) (k4val, error) {
 						all = false
 						break
 					}
-					fa, okA := it.m.Num[a.s+"."+st.Field(i).Name()]
-					fb, okB := it.m.Num[b.s+"."+st.Field(i).Name()]
-					if !okA {
-						it.m.Missing["num "+a.s+"."+st.Field(i).Name()] = true
+					fa, errA := it.lookup(a.s+"."+st.Field(i).Name(), st.Field(i).Type())
+					fb, errB := it.lookup(b.s+"."+st.Field(i).Name(), st.Field(i).Type())
+					if errA != nil {
+						return k4val{}, errA
 					}
-					if !okB {
-						it.m.Missing["num "+b.s+"."+st.Field(i).Name()] = true
+					if errB != nil {
+						return k4val{}, errB
 					}
-					if !okA || !okB {
-						return k4val{}, errK4Undecided
-					}
-					if fa != fb {
+					if fa.f != fb.f {
 						eq = false
 					}
 				}
@@ -508,17 +651,26 @@ func (it *k4interp) eval1(fr *k4frame, v ssa.Value) (k4val, error) {
 					return k4val{kind: 1, b: eq == (x.Op == token.EQL)}, nil
 				}
 			}
+			// pointer / interface identity vs nil etc: an atom
 		}
-		// struct/opaque equality: an atom
 		if isBoolT(x.Type()) {
-			return it.atomBool(fr, x)
+			return it.opaque(fr, x)
 		}
-		return k4val{}, fmt.Errorf("cannot evaluate %s", x.Op)
+		return k4val{}, fmt.Errorf("cannot evaluate %s on %s and %s", x.Op, a, b)
 	case *ssa.Phi:
 		return k4val{}, fmt.Errorf("phi evaluated out of order")
 	case *ssa.Convert:
-		return it.eval(fr, x.X)
+		a, err := it.eval(fr, x.X)
+		if err != nil {
+			return a, err
+		}
+		if a.kind == 2 && isNumeric(x.Type()) && !isFloat(x.Type()) && isFloat(x.X.Type()) {
+			return k4val{kind: 2, f: math.Trunc(a.f)}, nil
+		}
+		return a, nil
 	case *ssa.ChangeType:
+		return it.eval(fr, x.X)
+	case *ssa.MakeInterface:
 		return it.eval(fr, x.X)
 	case *ssa.Extract:
 		t, err := it.eval(fr, x.Tuple)
@@ -528,9 +680,66 @@ func (it *k4interp) eval1(fr *k4frame, v ssa.Value) (k4val, error) {
 		if t.kind == 5 && x.Index < len(t.tup) {
 			return t.tup[x.Index], nil
 		}
-		return it.termOf(fr, x)
+		return it.opaque(fr, x)
+	case *ssa.Slice:
+		if x.Low == nil && x.High == nil {
+			if _, isPtr := x.X.Type().Underlying().(*types.Pointer); isPtr {
+				k, err := it.addrKey(fr, x.X)
+				if err != nil {
+					return k4val{}, err
+				}
+				return k4val{kind: 3, s: k}, nil
+			}
+			return it.eval(fr, x.X)
+		}
+		return it.opaque(fr, x)
+	case *ssa.MakeClosure:
+		var cells []string
+		for _, b := range x.Bindings {
+			k, err := it.addrKey(fr, b)
+			if err != nil {
+				return k4val{}, err
+			}
+			cells = append(cells, k)
+		}
+		return k4val{kind: 7, v: x.Fn, s: strings.Join(cells, "\x00")}, nil
+	case *ssa.Function:
+		return k4val{kind: 7, v: x}, nil
 	case *ssa.Call:
+		if b, ok := x.Call.Value.(*ssa.Builtin); ok {
+			switch b.Name() {
+			case "len":
+				if sl, ok := x.Call.Args[0].(*ssa.Slice); ok && sl.Low == nil && sl.High == nil {
+					if pt, ok := sl.X.Type().Underlying().(*types.Pointer); ok {
+						if at, ok := pt.Elem().Underlying().(*types.Array); ok {
+							return k4val{kind: 2, f: float64(at.Len())}, nil
+						}
+					}
+				}
+				a, err := it.eval(fr, x.Call.Args[0])
+				if err != nil {
+					return a, err
+				}
+				if a.kind == 4 {
+					return k4val{kind: 2, f: float64(len(a.s))}, nil
+				}
+				return it.lookup("len("+a.String()+")", x.Type())
+			}
+		}
 		cal := staticCallee(x)
+		var fvs []k4val
+		if cal == nil {
+			// call of a closure value held in a register
+			fv, err := it.eval(fr, x.Call.Value)
+			if err == nil && fv.kind == 7 {
+				cal, _ = fv.v.(*ssa.Function)
+				if fv.s != "" {
+					for _, k := range strings.Split(fv.s, "\x00") {
+						fvs = append(fvs, k4val{kind: 3, s: k})
+					}
+				}
+			}
+		}
 		if cal != nil {
 			if r, ok, err := it.nativeMath(fr, x, extName(cal)); ok {
 				return r, err
@@ -541,16 +750,22 @@ func (it *k4interp) eval1(fr *k4frame, v ssa.Value) (k4val, error) {
 			for _, a := range x.Call.Args {
 				av, err := it.eval(fr, a)
 				if err != nil {
-					// pass opaque expression
-					if k, ok := it.keyOf(fr, a); ok {
-						av = k4val{kind: 3, v: a, s: k}
-					} else {
-						return k4val{}, err
-					}
+					return k4val{}, err
 				}
 				args = append(args, av)
 			}
-			res, err := it.call(cal, args)
+			if len(cal.FreeVars) > 0 && fvs == nil {
+				if mc, ok := x.Call.Value.(*ssa.MakeClosure); ok {
+					for _, b := range mc.Bindings {
+						k, err := it.addrKey(fr, b)
+						if err != nil {
+							return k4val{}, err
+						}
+						fvs = append(fvs, k4val{kind: 3, s: k})
+					}
+				}
+			}
+			res, err := it.call(cal, args, fvs)
 			if err != nil {
 				return k4val{}, err
 			}
@@ -559,30 +774,22 @@ func (it *k4interp) eval1(fr *k4frame, v ssa.Value) (k4val, error) {
 			}
 			return k4val{kind: 5, tup: res}, nil
 		}
-		return it.termOf(fr, x)
-	case *ssa.Alloc:
-		if c, ok := fr.cells[x]; ok {
-			return c, nil
-		}
-	case *ssa.MakeInterface:
-		return it.eval(fr, x.X)
+		return it.opaque(fr, x)
 	}
-	return it.termOf(fr, v)
+	return it.opaque(fr, v)
 }
 
-// termOf: v is a leaf of the model: numeric term, Boolean atom, or opaque.
-func (it *k4interp) termOf(fr *k4frame, v ssa.Value) (k4val, error) {
-	t := v.Type()
-	if isBoolT(t) {
-		return it.atomBool(fr, v)
+func zeroOf(t types.Type) k4val {
+	switch {
+	case isBoolT(t):
+		return k4val{kind: 1}
+	case isNumeric(t):
+		return k4val{kind: 2}
 	}
-	if b, ok := t.Underlying().(*types.Basic); ok && b.Info()&types.IsNumeric != 0 {
-		return it.atomNum(fr, v)
+	if b, ok := t.Underlying().(*types.Basic); ok && b.Info()&types.IsString != 0 {
+		return k4val{kind: 4}
 	}
-	if k, ok := it.keyOf(fr, v); ok {
-		return k4val{kind: 3, v: v, s: k}, nil
-	}
-	return k4val{kind: 3, v: v, s: v.Name()}, nil
+	return k4val{kind: 3, s: "zero"}
 }
 
 // k4run interprets f with opaque parameters $0..$n under the model.
@@ -590,7 +797,7 @@ func k4run(p *Program, f *ssa.Function, m *Model, inline func(*ssa.Function) boo
 	if m.Missing == nil {
 		m.Missing = map[string]bool{}
 	}
-	it := &k4interp{p: p, m: m, inline: inline}
+	it := &k4interp{p: p, m: m, inline: inline, mem: map[string]k4val{}}
 	var args []k4val
 	for i, par := range f.Params {
 		k := fmt.Sprintf("$%d", i)
@@ -613,7 +820,7 @@ func k4run(p *Program, f *ssa.Function, m *Model, inline func(*ssa.Function) boo
 			args = append(args, k4val{kind: 3, v: par, s: k})
 		}
 	}
-	return it.call(f, args)
+	return it.call(f, args, nil)
 }
 
 // enumerate all assignments of vals to the numeric keys and of {false,true} to
@@ -792,3 +999,25 @@ func modelString(m *Model) string {
 
 func sqrtf(f float64) float64 { return math.Sqrt(f) }
 func nan() float64            { return math.NaN() }
+
+// sliceContents renders a full slice of a local array whose elements were all
+// stored as constants: ["a"|"b"].
+func (it *k4interp) sliceContents(fr *k4frame, x *ssa.Slice) (string, bool) {
+	al, ok := x.X.(*ssa.Alloc)
+	if !ok || x.Low != nil || x.High != nil {
+		return "", false
+	}
+	base := fmt.Sprintf("L%d:%s", fr.id, al.Name())
+	var parts []string
+	for i := 0; i < 64; i++ {
+		v, ok := it.mem[fmt.Sprintf("%s[%d]", base, i)]
+		if !ok {
+			break
+		}
+		parts = append(parts, v.String())
+	}
+	if len(parts) == 0 {
+		return "", false
+	}
+	return "[" + strings.Join(parts, "|") + "]", true
+}
